@@ -1604,6 +1604,11 @@ func instructionLocality(instr ssa.Instruction, g *EscapeGraph) *dataflow.Escape
 	case *ssa.Go:
 		return nil // go func is clearly non-local
 	case *ssa.Call:
+		// Calls to functions are classified through the instructions of the callee. Builtins have no body,
+		// so the memory they access must be checked here.
+		if builtin, ok := instrType.Call.Value.(*ssa.Builtin); ok {
+			return builtinCallLocality(builtin, instrType, g)
+		}
 		return nil // functions require special handling
 	case *ssa.MakeClosure:
 		// Making a closure is a local operation. The resulting closure may close over external
@@ -1648,6 +1653,34 @@ func instructionLocality(instr ssa.Instruction, g *EscapeGraph) *dataflow.Escape
 		// Some operation can fallthrough as well, because they might not (yet) handle all forms of their instruction type.
 	}
 	return dataflow.NewBaseRationale("instruction locality unknown")
+}
+
+// builtinCallLocality returns nil if the memory accessed by the call to the builtin is local w.r.t. the given
+// escape graph. The builtins that access memory through their arguments are: append and copy (the backing arrays),
+// delete and clear (the map or slice contents), close (the channel), and len and cap of a map or channel.
+func builtinCallLocality(builtin *ssa.Builtin, call *ssa.Call, g *EscapeGraph) *dataflow.EscapeRationale {
+	checkArgs := func(args []ssa.Value) *dataflow.EscapeRationale {
+		for _, arg := range args {
+			if lang.IsNillableType(arg.Type()) {
+				if rationale := derefsAreLocal(g, g.nodes.ValueNode(arg)); rationale != nil {
+					return rationale
+				}
+			}
+		}
+		return nil
+	}
+	switch builtin.Name() {
+	case "append", "copy", "delete", "clear", "close":
+		return checkArgs(call.Call.Args)
+	case "len", "cap":
+		for _, arg := range call.Call.Args {
+			switch arg.Type().Underlying().(type) {
+			case *types.Map, *types.Chan:
+				return checkArgs(call.Call.Args)
+			}
+		}
+	}
+	return nil
 }
 
 // basicBlockInstructionLocality fills in the locality map with the locality information
